@@ -655,3 +655,25 @@ Example ex_h_recognised :
   | _, _ => False
   end.
 Proof. vm_compute. repeat split; reflexivity. Qed.
+
+(** * Outside every delivery class: value terminators are compared AFTER the escape too
+
+    [check_terminator] sits in the positional branch of the loop, which trailing mode does not skip
+    ([Escape.tstep], [TS_term]): a token of the tail that equals the [value_terminator] of the positional it
+    would go to is consumed as the terminator and reaches no argument.  [prog -- a ;] with
+    [p (num_args 1.., value_terminator ";")] is accepted with [p = [a]].  The implementation agrees
+    (corpus/C05/escape-main.r3.cases).  The oracle's class and the classes [sink_from]/[chainc] exclude
+    positionals with terminators; read for every command whose positionals could absorb the tail, the first
+    sentence of the property does not hold for such commands. *)
+Definition v_p : arg := (arg_new [112]) <| a_num := Some {| vmin := 1; vmax := usize_max |} |> <| a_term := Some [59] |>.
+Definition v_c0 : cmd := (cmd_new [112]) <| c_args := [v_p] |> <| c_bin_name := Some [112] |>.
+Theorem terminator_tail_dropped_refuted : exists c0 tail tok m,
+  esc_class_h c0 = true /\ In tok tail /\ do_parse c0 (dashdash :: tail) = OOk m /\ ms_sub m = None /\
+  forall y e, fm_get y (ms_args m) = Some e -> ~ In tok (concat (m_raw e)).
+Proof.
+  exists v_c0, [[97]; [59]], [59]. eexists.
+  split; [vm_compute; reflexivity|]. split; [right; left; reflexivity|]. split; [vm_compute; reflexivity|].
+  split; [reflexivity|]. intros y e. cbn [ms_args fm_get].
+  destruct (beq [112] y); [|discriminate]. intros H. injection H as <-. cbn.
+  intros [H|[]]. discriminate H.
+Qed.
